@@ -258,35 +258,42 @@ def m2_refusals(chk, F, G, core_call, tag):
         if G.blocks[b]["cleanup"]:
             continue
         cp = core.strip_generics(core.callee_path(t) or "")
-        if not cp.endswith("Iterator::all") and not cp.endswith("::all"):
+        last = cp.rsplit("::", 1)[-1]
+        if last not in ("all", "any") or len(t["args"]) != 2:
             continue
-        # closure body: Eq(byte, 0)
+        # closure body: `byte == 0` for all(..), `byte != 0` for any(..)
         cl = core.op_place(t["args"][1])
         cty = G.locals[cl["local"]]["ty"] if cl else {}
         cf = F.fns.get(cty.get("path")) if cty.get("k") == "closure" else None
         body_ok = False
         if cf is not None:
-            eqs = [s for _, _, s in cf.iter_stmts() if s["k"] == "assign" and s["rv"]["k"] == "binop" and s["rv"]["op"] == "Eq" and s["place"]["local"] == 0]
+            want = "Eq" if last == "all" else "Ne"
+            eqs = [s for _, _, s in cf.iter_stmts() if s["k"] == "assign" and s["rv"]["k"] == "binop" and s["rv"]["op"] == want and s["place"]["local"] == 0]
             body_ok = len(eqs) == 1 and (core.op_const_val(eqs[0]["rv"]["b"]) == 0 or core.op_const_val(eqs[0]["rv"]["a"]) == 0) and len(cf.blocks) == 1
-        # receiver: iter over the whole suffix of split_at(len - n)
-        whole_suffix = False
-        sp = split_component(G, t["args"][0], ("iter", "into_iter", "by_ref"))
-        if sp is not None and sp[1] == 1 and core.strip_generics(core.callee_path(sp[0]) or "").endswith("split_at"):
-            st = sp[0]
-            e = ex.of_operand(st["args"][1])
-            src = flow.origin(G, st["args"][0])
-            whole_suffix = (e[0] == "bin" and e[1] == "Sub" and expr.has_call(e[2], "::len") and expr.has_assoc(e[3], "OUTPUT_SIZE")
-                            and src == ("arg", msgp))
-        detail = "closure is `byte == 0`: %s; iterates the whole suffix of split_at(len - n): %s" % (body_ok, whole_suffix)
+        # receiver: an iterator over exactly the last n bytes of the message (split_at(len - n).1 or msg[len - n..])
+        whole_suffix = suffix_of_message(F, G, t["args"][0], msgp, ex)
+        detail = "closure is `byte %s 0` under %s(..): %s; iterates the whole trailer: %s" % ("==" if last == "all" else "!=", last, body_ok, whole_suffix)
         if not (body_ok and whole_suffix):
             continue
-        # its result guards the core call
+        # its result guards the core call: the core is reached only on the `every byte is zero` edge, the other edge only reaches errors
         dl = t["dest"]["local"]
         for sb, st in G.iter_terms():
-            if st["k"] == "switch" and core.op_local(st["discr"]) == dl:
+            neg = False
+            dloc = core.op_local(st["discr"]) if st["k"] == "switch" else None
+            if dloc is not None and dloc != dl:
+                ds = [d for d in G.defs_of(dloc) if not G.blocks[d[0]]["cleanup"]]
+                if len(ds) == 1 and ds[0][1] != "term" and ds[0][2]["rv"]["k"] == "unop" and ds[0][2]["rv"]["op"] == "Not" and core.op_local(ds[0][2]["rv"]["a"]) == dl:
+                    neg, dloc = True, dl
+            if st["k"] == "switch" and dloc == dl:
                 zero_t = [tg for v, tg in st["targets"] if v == 0]
                 other = st.get("otherwise")
-                if zero_t and other is not None and flow.edge_dominates(G, sb, other, cb) and gf.error_only_from(G, zero_t[0], [cb]):
+                if not zero_t or other is None:
+                    continue
+                true_e, false_e = other, zero_t[0]
+                if neg:
+                    true_e, false_e = false_e, true_e
+                good_e, bad_e = (true_e, false_e) if last == "all" else (false_e, true_e)
+                if flow.edge_dominates(G, sb, good_e, cb) and gf.error_only_from(G, bad_e, [cb]):
                     found_zero = True
     if not found_zero:
         ok2, d2 = zero_loop_idiom(F, G, msgp, cb, ex)
@@ -472,9 +479,23 @@ def m4_absorb_order(chk, F, T, tag):
             suf_u = [u for u in updates if u[2] == "suffix" and u[1] == hl]
             suf_after = [u for u in suf_u if f.dominates(sb, u[0])]
             other_after = [u for u in updates if u[1] == hl and f.dominates(sb, u[0]) and u[2] != "suffix"]
-            okseq = shared and len(pre_u) == 1 and len(suf_u) == 1 and len(suf_after) == 1 and not other_after
-            detail = "hasher handed to the searcher as %s; prefix absorbed before: %d; suffix absorbed after: %d (total %d); other absorbs after the search: %d" % (
-                hty, len(pre_u), len(suf_after), len(suf_u), len(other_after))
+            # once the message is split, every way to the function's exit passes through the search and then the absorb of the
+            # trailer (a build-constant guard around them is a path on which the signed digest does not cover the trailer)
+            def exits_avoiding(avoid):
+                seen, work, hit = set(), [b], []
+                while work:
+                    x = work.pop()
+                    if x in seen or x == avoid or f.blocks[x]["cleanup"]:
+                        continue
+                    seen.add(x)
+                    if f.blocks[x]["term"]["k"] == "return":
+                        hit.append(x)
+                    work.extend(f.succ[x])
+                return hit
+            skip = (exits_avoiding(suf_after[0][0]) if len(suf_after) == 1 else []) + exits_avoiding(sb)
+            okseq = shared and len(pre_u) == 1 and len(suf_u) == 1 and len(suf_after) == 1 and not other_after and not skip
+            detail = "hasher handed to the searcher as %s; prefix absorbed before: %d; suffix absorbed after: %d (total %d); other absorbs after the search: %d; exits reachable without search / trailer absorb: %s" % (
+                hty, len(pre_u), len(suf_after), len(suf_u), len(other_after), [f.loc(x) for x in skip][:2])
         chk.ob("M4.trailer-absorbed-once-after-the-search", key, okseq,
                "in %s the message hash is not built as ... || prefix || [search with a shared reference to the hasher] || trailer (%s): the hashed trailer could differ "
                "from the bytes written back to the message, so the released signature would not verify" % (f.path, detail), where=f.loc(b))
